@@ -70,6 +70,7 @@ class Backend:
         self.marker_n = 0
         self.page_mode = 0
         self.exec_result = None
+        self.async_changes = []  # ids changed by timers/externals since the last invocation event
         self.exec_id = "exec-0000"
         self._add_row({"Id": self.exec_id, "Type": "EXECUTION", "Status": "STARTED",
                        "Name": "verif-exec", "StartTimestamp": dt(self.d.now()),
@@ -120,7 +121,15 @@ class Backend:
 
     # ------------------------------------------------------------------ timers and externals
     def refresh(self):
+        """Fire every due timer; returns the ids whose status changed."""
         now = self.d.now()
+        v0 = self.v
+        self._refresh(now)
+        ch = [i for i in self.order if self.ver[i] > v0]
+        self.async_changes.extend(ch)
+        return ch
+
+    def _refresh(self, now):
         for i in self.order:
             r = self.rows[i]
             t, s = r["Type"], r["Status"]
@@ -172,6 +181,7 @@ class Backend:
             d["Error"] = error
         r["EndTimestamp"] = dt(self.d.now())
         self._touch(i)
+        self.async_changes.append(i)
         self.log.append({"tick": self.d.tick(), "inv": self.d.inv, "call": None, "external": True,
                          "id": i, "path": self.path_of.get(i), "after": status,
                          "u": {"Id": i, "Type": r["Type"], "Action": "EXTERNAL:" + status}})
@@ -350,6 +360,7 @@ class Backend:
     def make_event(self, mode):
         """Invocation payload as the service would send it (JSON, ms timestamps)."""
         self.refresh()
+        self.async_changes = []
         self.page_mode = mode
         rows = [self.wire(self.rows[i]) for i in self.order]
         tok = self._issue_token()
